@@ -1315,6 +1315,25 @@ func (x *Exec) finish(s *State, ret *ssa.Return, rs []Val) {
 		}
 	}
 	x.curInstr = ret
+	// explicit lemma instantiations (the lemmas are proved separately)
+	for _, u := range x.c.Uses {
+		call, ok := u.E.(*spec.Call)
+		id, ok2 := call.Fun.(*spec.Ident)
+		if !ok || !ok2 {
+			x.unsupported("use clause must be a lemma application")
+			continue
+		}
+		l := x.E.Lemmas[id.Name]
+		if l == nil || len(call.Args) != len(l.Params) {
+			x.unsupported("use: unknown lemma %s or wrong arity", id.Name)
+			continue
+		}
+		var args []SVal
+		for _, a := range call.Args {
+			args = append(args, x.eval(env, a))
+		}
+		s.assume(x.lemmaInstance(env, l, args))
+	}
 	for i, en := range x.c.Ensures {
 		goal := x.evalBool(env, en.E)
 		x.addObl(s, "post", clauseLabel(en, i), goal, x.clauseProps(en), en.Src)
